@@ -108,6 +108,7 @@ type pktWorld struct {
 	hist   []string
 	sent   []*pktSent
 	byEnc  map[string]*pktSent // canonical packet bytes -> sent packet
+	bulks  []*pktBulk
 	evms   []*pktEvm           // EVM-secured counterparties (bsc / eth clients on chain 0)
 	evmBy  map[string]*pktEvm  // host chain name | client name
 	// oracle state
@@ -764,6 +765,55 @@ func (w *pktWorld) restart(c *pktChain) bool {
 	return true
 }
 
+// pktBulk: many packets src -> dst whose commitment (source), receipt and acknowledgement (destination) were written
+// with the keeper setters, to fill the packet stores beyond any page size; the replays after restarts carry real
+// proofs (the commitments really are in the source chain's committed store).
+type pktBulk struct {
+	src, dst *pktChain
+	pkts     []*pktSent
+	byRcpt   map[string]*pktSent // hex receipt key -> packet
+}
+
+func (w *pktWorld) bulk(src, dst *pktChain, from uint64, n int) *pktBulk {
+	b := &pktBulk{src: src, dst: dst, byRcpt: map[string]*pktSent{}}
+	relayer := dst.regAddr[dst.accts[0].addr.String()][src.name]
+	ackBz := w.defAckEnc(0, []byte{}, "", relayer, 0)
+	aid, _, _ := w.defAck(ackBz)
+	sctx, dctx := src.tc.GetContext(), dst.tc.GetContext()
+	var ids []string
+	for i := 0; i < n; i++ {
+		seq := from + uint64(i)
+		amt := make([]byte, 32)
+		big.NewInt(int64(1 + i%50)).FillBytes(amt)
+		td := packettypes.TransferData{Receiver: strings.ToLower(src.tc.SenderAddress.String()), Amount: amt,
+			Token: strings.ToLower(common.Address{}.String()), OriToken: ""}
+		tdBz, _ := td.ABIPack()
+		p := packettypes.Packet{SrcChain: src.name, DstChain: dst.name, Sequence: seq, Sender: strings.ToLower(src.tc.SenderAddress.String()),
+			TransferData: tdBz, CallData: []byte{}, CallbackAddress: common.Address{}.String(), FeeOption: 0}
+		bz, err := p.ABIPack()
+		if err != nil {
+			w.t.Fatal(err)
+		}
+		id, dp, _ := w.defPacket(bz)
+		ids = append(ids, id)
+		src.tc.App.XIBCKeeper.PacketKeeper.SetPacketCommitment(sctx, p.SrcChain, p.DstChain, seq, pktSha(bz))
+		dst.tc.App.XIBCKeeper.PacketKeeper.SetPacketReceipt(dctx, p.SrcChain, p.DstChain, seq)
+		dst.tc.App.XIBCKeeper.PacketKeeper.SetPacketAcknowledgement(dctx, p.SrcChain, p.DstChain, seq, pktSha(ackBz))
+		s := &pktSent{bz: bz, p: dp, src: src, dst: dst, sentAt: src.tc.CurrentHeader.Height, mech: "bulk", recvd: true, ackBz: ackBz}
+		w.sent = append(w.sent, s)
+		w.byEnc[string(bz)] = s
+		b.pkts = append(b.pkts, s)
+		b.byRcpt[hx(host.PacketReceiptKey(p.SrcChain, p.DstChain, seq))] = s
+		w.accepted[dst.name+"|"+hx(host.PacketReceiptKey(p.SrcChain, p.DstChain, seq))] = 1 // counts as delivered once
+	}
+	w.op(fmt.Sprintf("bulk %s %s %s %s", hxs(src.name), hxs(dst.name), aid, strings.Join(ids, " ")), "ok")
+	w.r.Count("bulk")
+	w.fullDump(src)
+	w.fullDump(dst)
+	w.bulks = append(w.bulks, b)
+	return b
+}
+
 // updateClient delivers a genuine MsgUpdateClient for client `name` of chain c (signed by acct) with the last
 // header of the tracked chain.
 func (w *pktWorld) updateClient(c *pktChain, name string, acct int) bool {
@@ -993,6 +1043,22 @@ func (w *pktWorld) ack(c *pktChain, packet, ackBz, proof []byte, h clienttypes.H
 	msg := &packettypes.MsgAcknowledgement{Packet: packet, Acknowledgement: ackBz, ProofAcked: proof, ProofHeight: h, Signer: signer}
 	now := c.now()
 	stBefore := c.ackStatus(p.DstChain, p.Sequence)
+	// C05: state the fee / callback oracles look at (source side only)
+	var msgAck packettypes.Acknowledgement
+	msgAckOk := msgAck.ABIDecode(ackBz) == nil
+	_, feeBefore := c.packetFee(p.DstChain, p.Sequence)
+	recBefore := c.ackRecord(p.DstChain, p.Sequence)
+	resolved, resolvedOk := c.resolveRelayer(p.DstChain, msgAck.Relayer)
+	var resolvedAcc, senderAcc sdk.AccAddress
+	var relBalBefore, sndBalBefore *big.Int
+	if resolvedOk {
+		resolvedAcc, _ = sdk.AccAddressFromBech32(resolved)
+		relBalBefore = c.baseBalance(resolvedAcc)
+	}
+	if common.IsHexAddress(p.Sender) {
+		senderAcc = sdk.AccAddress(common.HexToAddress(p.Sender).Bytes())
+		sndBalBefore = c.baseBalance(senderAcc)
+	}
 	_, err := w.deliverMsgs(c, acct, msg)
 	ok := err == nil
 	if err != nil && os.Getenv("VERIF_PKT_DEBUG") != "" {
@@ -1042,6 +1108,50 @@ func (w *pktWorld) ack(c *pktChain, packet, ackBz, proof []byte, h clienttypes.H
 		if before[ck] != hx(pktSha(enc)) {
 			w.r.Find(Finding{Sig: "C02:ack-accepted-without-commitment:" + tag, What: "acknowledgement accepted although this chain did not hold the commitment of exactly this packet",
 				Ops: append([]string{}, w.hist...), Obs: "accepted; stored " + before[ck], Req: "rejected"})
+		}
+		if p.SrcChain == c.name && msgAckOk {
+			// the acknowledgement was processed: fee released once to the resolved relayer account, sender callback ran
+			_, feeAfter := c.packetFee(p.DstChain, p.Sequence)
+			recAfter := c.ackRecord(p.DstChain, p.Sequence)
+			wantRec := fmt.Sprintf("%d|%x|%s|%s", msgAck.Code, msgAck.Result, msgAck.Message, msgAck.Relayer)
+			if recBefore != "" || recAfter != wantRec {
+				w.r.Find(Finding{Sig: "C05:sender-callback-not-run-once:" + tag, What: "after an accepted acknowledgement the packet contract must hold exactly this acknowledgement for (dst, seq), and must not have held one before (OnAcknowledgePacket runs once)",
+					Ops: append([]string{}, w.hist...), Obs: "before " + recBefore + " after " + recAfter, Req: "before - after " + wantRec})
+			}
+			if !resolvedOk {
+				w.r.Find(Finding{Sig: "C05:ack-accepted-relayer-unresolvable:" + tag, What: "an acknowledgement was accepted although the relayer it names does not resolve to an account in this chain's registry",
+					Ops: append([]string{}, w.hist...), Obs: "accepted, relayer " + msgAck.Relayer, Req: "rejected"})
+			} else {
+				// expected movement of the base token: fee to the resolved account; refund of the transfer to the sender on an
+				// error acknowledgement (base-token transfers only — all this harness sends)
+				wantRel := new(big.Int).Set(feeBefore)
+				wantSnd := big.NewInt(0)
+				var td packettypes.TransferData
+				if msgAck.Code != 0 && len(p.TransferData) > 0 && td.ABIDecode(p.TransferData) == nil && common.HexToAddress(td.Token) == (common.Address{}) {
+					wantSnd = new(big.Int).SetBytes(td.Amount)
+				}
+				gotRel := new(big.Int).Sub(c.baseBalance(resolvedAcc), relBalBefore)
+				if senderAcc != nil && senderAcc.Equals(resolvedAcc) {
+					wantRel.Add(wantRel, wantSnd)
+				} else if senderAcc != nil {
+					gotSnd := new(big.Int).Sub(c.baseBalance(senderAcc), sndBalBefore)
+					if gotSnd.Cmp(wantSnd) != 0 {
+						w.r.Find(Finding{Sig: "C05:ack-refund-wrong:" + tag, What: "the sender's base-token balance must grow by exactly the transferred amount on an error acknowledgement and not at all on a success acknowledgement",
+							Ops: append([]string{}, w.hist...), Obs: gotSnd.String(), Req: wantSnd.String()})
+					}
+				}
+				if gotRel.Cmp(wantRel) != 0 {
+					w.r.Find(Finding{Sig: "C05:ack-fee-not-paid-once-to-resolved-relayer:" + tag, What: "an accepted acknowledgement must release the escrowed packet fee exactly once to the account the registry resolves for the acknowledgement's relayer field",
+						Ops: append([]string{}, w.hist...), Obs: fmt.Sprintf("resolved %s got %s (fee record %s -> %s)", resolved, gotRel, feeBefore, feeAfter), Req: wantRel.String()})
+				}
+				w.r.Count("ack.fee-oracle")
+				if feeBefore.Sign() > 0 {
+					w.r.Count("ack.fee-paid")
+				}
+				if wantSnd.Sign() > 0 {
+					w.r.Count("ack.refund")
+				}
+			}
 		}
 		if _, still := after[ck]; still {
 			w.r.Find(Finding{Sig: "C05:ack-accepted-commitment-kept:" + tag, What: "accepted acknowledgement did not remove the commitment",
@@ -1108,3 +1218,58 @@ func enc0(p packettypes.Packet) []byte {
 
 func erc20ABI() abi.ABI { return erc20contracts.ERC20MinterBurnerDecimalsContract.ABI }
 func erc20Bin() []byte  { return erc20contracts.ERC20MinterBurnerDecimalsContract.Bin }
+
+// ---------------------------------------------------------------------------------------------
+// packet-contract views and balances used by the C05 oracles
+
+func (c *pktChain) packetFee(dst string, seq uint64) (common.Address, *big.Int) {
+	abi := packetcontract.PacketContract.ABI
+	res, err := c.tc.App.AggregateKeeper.CallEVM(c.tc.GetContext(), abi, packettypes.ModuleAddress,
+		packetcontract.PacketContractAddress, "packetFees", []byte(dst+"/"+fmt.Sprint(seq)))
+	if err != nil {
+		return common.Address{}, big.NewInt(0)
+	}
+	var fee packettypes.Fee
+	if err := abi.UnpackIntoInterface(&fee, "packetFees", res.Ret); err != nil || fee.Amount == nil {
+		return common.Address{}, big.NewInt(0)
+	}
+	return fee.TokenAddress, fee.Amount
+}
+
+// ackRecord: the acknowledgement the packet contract recorded for (dst, seq) when OnAcknowledgePacket ran ("" if none)
+func (c *pktChain) ackRecord(dst string, seq uint64) string {
+	abi := packetcontract.PacketContract.ABI
+	res, err := c.tc.App.AggregateKeeper.CallEVM(c.tc.GetContext(), abi, packettypes.ModuleAddress,
+		packetcontract.PacketContractAddress, "acks", []byte(dst+"/"+fmt.Sprint(seq)))
+	if err != nil {
+		return ""
+	}
+	var a packettypes.Acknowledgement
+	if err := abi.UnpackIntoInterface(&a, "acks", res.Ret); err != nil {
+		return ""
+	}
+	if a.Code == 0 && len(a.Result) == 0 && a.Message == "" && a.Relayer == "" {
+		return ""
+	}
+	return fmt.Sprintf("%d|%x|%s|%s", a.Code, a.Result, a.Message, a.Relayer)
+}
+
+func (c *pktChain) baseBalance(addr sdk.AccAddress) *big.Int {
+	return c.tc.App.BankKeeper.GetBalance(c.tc.GetContext(), addr, sdk.DefaultBondDenom).Amount.BigInt()
+}
+
+// resolveRelayer mirrors GetRelayerAddressOnTeleport on the harness' registry mirror: relayers in store order
+// (ascending address string), the first one registered for `chain` with an address equal to `addr` up to case.
+func (c *pktChain) resolveRelayer(chain, addr string) (string, bool) {
+	var rs []string
+	for r := range c.regAddr {
+		rs = append(rs, r)
+	}
+	sort.Strings(rs)
+	for _, r := range rs {
+		if a, ok := c.regAddr[r][chain]; ok && strings.EqualFold(a, addr) {
+			return r, true
+		}
+	}
+	return "", false
+}
